@@ -72,6 +72,26 @@ let load_cmd () =
        | OutOfFuel -> Printf.printf "%s fuel\n" id)
     | _ -> ())
 
+let doclayout_cmd () =
+  iter_lines (fun line ->
+    match words line with
+    | [id; h] ->
+      (match load sha1 (bytes_of_hex h) with
+       | Ok t ->
+         (match layout (shape_of t) t.t_piece_length (nat_of_int (List.length t.t_pieces)) with
+          | Ok ps ->
+            let render i (p : piece) =
+              let segs = List.map (fun s -> Printf.sprintf "%d,%s,%s,%s" (int_of_nat s.s_file) (string_of_n s.s_off) (string_of_n s.s_len) (string_of_n s.s_flen)) p.p_segs in
+              Printf.sprintf "%d:%s:%s:%s" i (hex_of_bytes (List.nth t.t_pieces i)) (string_of_n p.p_len) (String.concat ";" segs) in
+            Printf.printf "%s ok %s\n" id (String.concat "|" (List.mapi render ps))
+          | Err -> Printf.printf "%s layout-err\n" id
+          | Panic -> Printf.printf "%s panic\n" id
+          | OutOfFuel -> Printf.printf "%s fuel\n" id)
+       | Err -> Printf.printf "%s err\n" id
+       | Panic -> Printf.printf "%s panic\n" id
+       | OutOfFuel -> Printf.printf "%s fuel\n" id)
+    | _ -> ())
+
 let cls = function Ok _ -> "ok" | Err -> "err" | Panic -> "panic" | OutOfFuel -> "fuel"
 
 let total_cmd () =
@@ -93,6 +113,7 @@ let () =
   | [| _; "validate" |] -> Validate.validate_cmd ()
   | [| _; "exec" |] -> Execval.exec_cmd ()
   | [| _; "load" |] -> load_cmd ()
+  | [| _; "doclayout" |] -> doclayout_cmd ()
   | [| _; "total" |] -> total_cmd ()
   | [| _; "hex" |] -> bytes_cmd hexdigest ()
   | [| _; "sha1" |] -> bytes_cmd sha1 ()
